@@ -1,4 +1,5 @@
 //@ contract nitrogql_checker::type_system_checker ::fn check_object
+//@   requires [C05.ts_object.pre_schema_wf] crate::schema_wf(&definitions.type_system)
 //@   ensures [C05.ts_object.frame] crate::extends_errs(old(result)@, final(result)@)
 //@   ensures [C05.ts_object.sound] final(result)@.len() == old(result)@.len() ==> crate::valid_object(object, definitions)
 //@   ensures [C05.ts_object.complete] crate::valid_object(object, definitions) ==> final(result)@.len() == old(result)@.len()
